@@ -14,7 +14,7 @@ import (
 	"verif/harness/transd"
 )
 
-func init() { commands["trans"] = transCmd }
+func init() { commands["trans"] = transCmd; commands["lis"] = lisCmd }
 
 func transCmd(args []string) int {
 	fs := flag.NewFlagSet("trans", flag.ExitOnError)
@@ -114,5 +114,102 @@ func transCmd(args []string) int {
 		return 2
 	}
 	fmt.Printf("trans: cases=%d matched=%d setup_failures=%d\n", len(cases), matched, notes)
+	return 0
+}
+
+func lisCmd(args []string) int {
+	fs := flag.NewFlagSet("lis", flag.ExitOnError)
+	casesPath := fs.String("cases", "", "ndjson file of cases")
+	tracePath := fs.String("trace", "", "ndjson trace output")
+	resPath := fs.String("results", "", "json summary output")
+	workers := fs.Int("workers", 16, "parallel cases")
+	fs.Parse(args)
+	log.SetOutput(io.Discard)
+	f, err := os.Open(*casesPath)
+	if err != nil {
+		fmt.Fprintln(os.Stderr, err)
+		return 2
+	}
+	defer f.Close()
+	var cases []transd.LCase
+	sc := bufio.NewScanner(f)
+	sc.Buffer(make([]byte, 1<<20), 1<<24)
+	for sc.Scan() {
+		var c transd.LCase
+		if err := json.Unmarshal(sc.Bytes(), &c); err != nil {
+			fmt.Fprintln(os.Stderr, "bad case line:", err)
+			return 2
+		}
+		cases = append(cases, c)
+	}
+	results := make([]transd.LResult, len(cases))
+	var wg sync.WaitGroup
+	ch := make(chan int)
+	for i := 0; i < *workers; i++ {
+		wg.Add(1)
+		go func() {
+			defer wg.Done()
+			for idx := range ch {
+				results[idx] = transd.ReplayListener(cases[idx])
+			}
+		}()
+	}
+	for i := range cases {
+		if cases[i].Cfg.Kind != "inproc" {
+			ch <- i
+		}
+	}
+	close(ch)
+	wg.Wait()
+	for i := range cases { // the in-process registry is not synchronised: one at a time
+		if cases[i].Cfg.Kind == "inproc" {
+			results[i] = transd.ReplayListener(cases[i])
+		}
+	}
+	w, err := tr.NewWriter(*tracePath)
+	if err != nil {
+		fmt.Fprintln(os.Stderr, err)
+		return 2
+	}
+	type cfgLine struct {
+		K    string `json:"k"`
+		N    int    `json:"n"`
+		Kind string `json:"kind"`
+	}
+	type mism struct {
+		N    int          `json:"n"`
+		Cfg  transd.Cfg   `json:"cfg"`
+		Note string       `json:"note"`
+		Act  []transd.LEv `json:"actual"`
+	}
+	matched := 0
+	var mms []mism
+	for i, r := range results {
+		vs := []interface{}{cfgLine{K: "cfg", N: cases[i].N, Kind: cases[i].Cfg.Kind}}
+		if r.Matched {
+			matched++
+		} else {
+			mms = append(mms, mism{r.N, r.Cfg, r.Note, r.Actual})
+		}
+		for _, e := range r.Actual {
+			vs = append(vs, e)
+		}
+		w.WriteAll(vs...)
+	}
+	if err := w.Close(); err != nil {
+		fmt.Fprintln(os.Stderr, err)
+		return 2
+	}
+	b, _ := json.Marshal(struct {
+		Cases      int    `json:"cases"`
+		Matched    int    `json:"matched"`
+		Notes      int    `json:"notes"`
+		Mismatches []mism `json:"mismatches"`
+	}{len(cases), matched, 0, mms})
+	if err := os.WriteFile(*resPath, b, 0o644); err != nil {
+		fmt.Fprintln(os.Stderr, err)
+		return 2
+	}
+	fmt.Printf("lis: cases=%d matched=%d\n", len(cases), matched)
 	return 0
 }
